@@ -93,6 +93,42 @@ func byteArrayFact(f *hc.Facts, lean, goName string) {
 	f.Raw(fmt.Sprintf("def %s : List UInt8 := [%s] -- %s.%s", lean, strings.Join(vals, ", "), dir, goName))
 }
 
+// evalInt evaluates a constant integer expression over literals, package constants, local constants
+// (through local) and + - *.
+func evalInt(f *hc.Facts, x ast.Expr, local func(string) (int, bool)) (int, bool) {
+	switch x := x.(type) {
+	case *ast.BasicLit:
+		v, err := strconv.ParseInt(x.Value, 0, 64)
+		return int(v), err == nil
+	case *ast.ParenExpr:
+		return evalInt(f, x.X, local)
+	case *ast.Ident:
+		if local != nil {
+			if v, ok := local(x.Name); ok {
+				return v, true
+			}
+		}
+		if sv, ok := f.ConstInt(dir, x.Name); ok {
+			v, err := strconv.Atoi(sv)
+			return v, err == nil
+		}
+	case *ast.BinaryExpr:
+		a, ok1 := evalInt(f, x.X, local)
+		b, ok2 := evalInt(f, x.Y, local)
+		if ok1 && ok2 {
+			switch x.Op {
+			case token.ADD:
+				return a + b, true
+			case token.SUB:
+				return a - b, true
+			case token.MUL:
+				return a * b, true
+			}
+		}
+	}
+	return 0, false
+}
+
 func facts(f *hc.Facts) {
 	f.Const("maxRecord", dir, "maxTLSRecordDataLength")
 	f.Const("typeChangeCipherSpec", dir, "RecordTypeChangeCipherSpec")
@@ -131,6 +167,56 @@ func facts(f *hc.Facts) {
 	} else {
 		f.Bool("writesVersion12", true, "NewFakeTLS: version: Version12Bytes")
 	}
+	// readServerHello: how many digest bytes the final comparison covers (interpreted by the model)
+	cmpLen := -1
+	if fd := f.FuncDecl(dir, "readServerHello"); fd != nil {
+		localConst := func(name string) (int, bool) {
+			v, ok := -1, false
+			ast.Inspect(fd, func(n ast.Node) bool {
+				vs, is := n.(*ast.ValueSpec)
+				if is && len(vs.Names) == 1 && vs.Names[0].Name == name && len(vs.Values) == 1 {
+					if x, okx := evalInt(f, vs.Values[0], nil); okx {
+						v, ok = x, true
+					}
+				}
+				return true
+			})
+			return v, ok
+		}
+		ast.Inspect(fd, func(n ast.Node) bool {
+			call, ok := n.(*ast.CallExpr)
+			if !ok || len(call.Args) != 2 {
+				return true
+			}
+			if fn := hc.Squash(f.Src(call.Fun)); fn != "bytes.Equal" && fn != "hmac.Equal" {
+				return true
+			}
+			l := 32
+			for _, a := range call.Args {
+				if se, ok := a.(*ast.SliceExpr); ok && se.High != nil {
+					if v, ok := evalInt(f, se.High, localConst); ok {
+						lo := 0
+						if se.Low != nil {
+							lo, _ = evalInt(f, se.Low, localConst)
+						}
+						if v-lo < l {
+							l = v - lo
+						}
+					} else {
+						l = -1
+					}
+				}
+			}
+			cmpLen = l
+			return true
+		})
+	}
+	if cmpLen < 0 {
+		f.Missing("digestCmpLen", "readServerHello: bytes.Equal/hmac.Equal on the digest not found or bounds not constant")
+	} else {
+		f.Nat("digestCmpLen", cmpLen, "readServerHello: number of digest bytes the final comparison covers")
+	}
+
 	// FakeTLS.Read: the switch over the record type, as a table the model interprets
 	// (0 = skip the record, 1 = deliver its data, 2 = error "handshake", 3 = error "unsupported")
 	var table []string
@@ -377,24 +463,13 @@ func run(c *hc.Ctx) error {
 	}
 
 	// ---- 1. sequences of writes → wire → peer reads with random buffer sizes
-	nseq := c.N(500, 6000)
-	for i := 0; i < nseq; i++ {
-		nw := r.Range(1, 5)
-		big := r.Chance(12)
+	streamCase := func(lens []int, bucket string) {
 		var desc []string
 		var want []byte
 		conn := &rw{}
 		w := faketls.NewFakeTLS(r, conn)
 		nontrivial := false
-		wrote := true
-		for j := 0; j < nw; j++ {
-			l := genWriteLen(r, big)
-			if i == 0 && j == 0 {
-				l = 3 << 20 // one multi-MiB write per run
-			}
-			if c.Thorough() && i < 40 && j == 0 {
-				l = hc.Pick(r, 1<<20, 3<<20, 5<<20+r.Intn(70000))
-			}
+		for _, l := range lens {
 			seed := r.Intn(256)
 			p := pattern(l, seed)
 			desc = append(desc, fmt.Sprintf("%d:%d", l, seed))
@@ -404,22 +479,24 @@ func run(c *hc.Ctx) error {
 			}
 			n, err := w.Write(p)
 			if err != nil || n != l {
+				c.Eval("wire "+strings.Join(desc, " "), true)
 				fail(c, "write-result", "wire "+strings.Join(desc, " "), fmt.Sprintf("Write of %d bytes returned n=%d err=%v", l, n, err))
-				wrote = false
-				break
+				return
 			}
 			want = append(want, p...)
 		}
+		c.Count("stream." + bucket)
 		line := "wire " + strings.Join(desc, " ")
-		c.Eval(line, nontrivial || nw > 1)
-		if !wrote {
-			continue
-		}
+		c.Eval(line, nontrivial || len(lens) > 1)
 		wire := append([]byte{}, conn.out.Bytes()...)
-		lens, okw := recordLens(wire)
-		// monitor a: the wire is a sequence of records
-		if !okw {
-			fail(c, "wire-malformed", line, "the bytes written are not a sequence of whole TLS records (a length field does not match its data)")
+		recLens, okw := recordLens(wire)
+		// monitor a: the wire is a sequence of whole records carrying exactly the written bytes
+		total := 0
+		for _, l := range recLens {
+			total += l
+		}
+		if !okw || total != len(want)+1 { // +1: the first-packet ChangeCipherSpec payload
+			fail(c, "wire-malformed", line, fmt.Sprintf("the bytes written are not a sequence of whole TLS records carrying the %d written bytes (records carry %d, well-formed=%v)", len(want), total-1, okw))
 		}
 		// monitor b: a FakeTLS peer reads back exactly the written bytes, for any read sizes
 		peer := faketls.NewFakeTLS(r, &rw{in: &chunked{data: wire, rng: r.Fork(), mode: r.Intn(3) + 4*r.Intn(2)}})
@@ -442,13 +519,57 @@ func run(c *hc.Ctx) error {
 			fail(c, "stream-roundtrip", line, fmt.Sprintf("peer read %d bytes (first difference at offset %d) then %q; %d bytes were written", len(got), k, errClass(rerr), len(want)))
 		}
 		var ls []string
-		for _, l := range lens {
+		for _, l := range recLens {
 			ls = append(ls, strconv.Itoa(l))
 		}
 		add(line, fmt.Sprintf("%d %d %s | %d %d %s", len(wire), crc32.ChecksumIEEE(wire), strings.Join(ls, ","), len(got), crc32.ChecksumIEEE(got), errClass(rerr)))
 		if len(wire) <= 1500 {
 			add("wirehex "+strings.Join(desc, " "), hc.Hex(wire))
 		}
+	}
+	nseq := c.N(500, 6000)
+	for i := 0; i < nseq; i++ {
+		nw := r.Range(1, 5)
+		big := r.Chance(12)
+		var lens []int
+		for j := 0; j < nw; j++ {
+			l := genWriteLen(r, big)
+			if i == 0 && j == 0 {
+				l = 3 << 20 // one multi-MiB write per run
+			}
+			if c.Thorough() && i < 40 && j == 0 {
+				l = hc.Pick(r, 1<<20, 3<<20, 5<<20+r.Intn(70000))
+			}
+			lens = append(lens, l)
+		}
+		streamCase(lens, "random")
+	}
+	// every write length 0..2100, three writes per connection (a lost or added byte desynchronises what follows)
+	const dense = 2100
+	for l := 0; l <= dense; l += 3 {
+		streamCase([]int{l, l + 1, l + 2}, "dense-0..2100")
+	}
+	// lengths whose last record carries 0..2100 bytes (length mod 65535 sweeps the same range): all of
+	// them in thorough; in quick the residues around every power of two up to 2048 and a PRNG sample
+	var residues []int
+	if c.Thorough() {
+		for res := 0; res <= dense; res++ {
+			residues = append(residues, res)
+		}
+	} else {
+		for p := 1; p <= 2048; p *= 2 {
+			for d := -6; d <= 6; d++ {
+				if p+d >= 0 {
+					residues = append(residues, p+d)
+				}
+			}
+		}
+		for i := 0; i < 60; i++ {
+			residues = append(residues, r.Intn(dense+1))
+		}
+	}
+	for _, res := range residues {
+		streamCase([]int{65535*hc.Pick(r, 1, 1, 2) + res, r.Range(1, 40), r.Range(1, 40)}, "tail-residue")
 	}
 
 	// ---- 2. Read calls on arbitrary / mutated wires
@@ -593,6 +714,55 @@ func run(c *hc.Ctx) error {
 			fail(c, "hello-rejected", line, "a well-formed hello with the right digest was rejected: "+err.Error())
 		}
 		add(line, out)
+	}
+
+	// ---- 3a. every single-bit flip of an honest hello must be rejected (all 256 digest bits, and
+	// bits of every other field)
+	for i := 0; i < c.N(2, 60); i++ {
+		secret := r.Bytes(16)
+		var random [32]byte
+		r.Read(random[:])
+		var b bytes.Buffer
+		faketls.VerifC19WriteRecord(&b, 0x16, [2]byte{3, 3}, r.Bytes(r.Range(38, 90)))
+		for j := r.Intn(3); j > 0; j-- {
+			faketls.VerifC19WriteRecord(&b, 0x16, [2]byte{3, 3}, r.Bytes(r.Range(0, 8)))
+		}
+		faketls.VerifC19WriteRecord(&b, 0x14, [2]byte{3, 3}, []byte{1})
+		faketls.VerifC19WriteRecord(&b, 0x17, [2]byte{3, 3}, r.Bytes(r.Range(1, 40)))
+		raw := b.Bytes()
+		for k := 11; k < 43; k++ {
+			raw[k] = 0
+		}
+		mac := hmac.New(sha256.New, secret)
+		mac.Write(random[:])
+		mac.Write(raw)
+		copy(raw[11:43], mac.Sum(nil))
+		var bits []int
+		for k := 11 * 8; k < 43*8; k++ {
+			bits = append(bits, k)
+		}
+		for k := 0; k < c.N(150, 400); k++ {
+			bits = append(bits, r.Intn(len(raw)*8))
+		}
+		for _, bit := range bits {
+			stream := append([]byte{}, raw...)
+			stream[bit/8] ^= 1 << (bit % 8)
+			rd := &chunked{data: stream, rng: r.Fork(), mode: r.Intn(3)}
+			err := faketls.VerifC19ReadServerHello(rd, random, secret)
+			line := fmt.Sprintf("shello %s %s %s", hc.Hex(random[:]), hc.Hex(secret), hc.Hex(stream))
+			c.Eval(line, true)
+			field := "other"
+			if bit/8 >= 11 && bit/8 < 43 {
+				field = fmt.Sprintf("digest-byte-%02d", bit/8-11)
+			}
+			c.Count("shello.bitflip." + map[bool]string{true: "digest", false: "other"}[field != "other"])
+			if err == nil {
+				fail(c, "hello-bitflip-accepted", line, fmt.Sprintf("a hello with bit %d of byte %d (%s) flipped after signing was accepted", bit%8, bit/8, field))
+				add(line, fmt.Sprintf("ok %d", len(stream)-rd.pos))
+				continue
+			}
+			add(line, "err "+errClass(err))
+		}
 	}
 
 	// ---- 3b. ClientHello: digest placement and timestamp XOR
